@@ -9,6 +9,7 @@ import (
 	"go/constant"
 	"go/token"
 	"go/types"
+	"math"
 	"sort"
 	"strings"
 
@@ -527,7 +528,7 @@ func dirName(d string) string {
 // ---------------------------------------------------------------- E-EACH-ONCE
 
 func init() {
-	register(&Rule{ID: "E-EACH-ONCE", Props: []string{"C13", "C09", "C02", "C01", "C17"}, Floor: 6,
+	register(&Rule{ID: "E-EACH-ONCE", Props: []string{"C13", "C09", "C02", "C01", "C17", "C19"}, Floor: 6,
 		Doc: "by interpretation of the helpers that apply an expression to every element of an array (max_by, min_by, sort_by, group_by, map, the array projections): on every path that returns a result, the expression was evaluated against every element of the array exactly once (a loop that stops one element short misses the last key, one that starts one element early evaluates a key twice, which doubles the work per nesting level)",
 		Run: ruleEEachOnce})
 	register(&Rule{ID: "E-CONTAINER-KIND", Props: []string{"C12", "C01", "C18"}, Floor: 6,
@@ -569,6 +570,12 @@ func ruleEEachOnce(p *Program, r *Reporter) {
 				continue
 			}
 			as, k, ok := vr.subjectArray(o.St)
+			if !ok {
+				// the path only bounds the length (len(a) <= 1): an array of the largest length it admits takes this path too
+				if f := o.St.ints[o.St.idOf(lenSym(as))]; f != nil && f.hi >= 1 && f.hi <= 3 && f.lo <= f.hi {
+					k, ok = f.hi, true
+				}
+			}
 			if !ok {
 				continue
 			}
@@ -718,7 +725,7 @@ func resultKind(v AV) string {
 // ---------------------------------------------------------------- E-COERCION-TABLE
 
 func init() {
-	register(&Rule{ID: "E-COERCION-TABLE", Props: []string{"C08", "C02", "C14"}, Floor: 16,
+	register(&Rule{ID: "E-COERCION-TABLE", Props: []string{"C08", "C02", "C14", "C18"}, Floor: 16,
 		Doc: "the integer-argument coercion (value, isNumber, isInteger), by interpretation on a value of each dynamic type: for each of the 13 numeric carriers every path reports isNumber = true (a number that is not an integer in range is an invalid value, never an invalid type), for null, booleans, strings, arrays, objects and foreign values every path reports (isNumber, isInteger) = (false, false); json.Number may report false when its text does not parse",
 		Run: ruleECoercionTable})
 }
@@ -776,6 +783,13 @@ func ruleECoercionTable(p *Program, r *Reporter) {
 		paths := 0
 		bad := ""
 		var badPos token.Pos
+		// for the machine-integer kinds: the values the coercion accepts as integers, as an interval of the symbolic operand
+		var accLo, accHi int64
+		accepted, accExact := 0, true
+		var argSym avSym
+		if ai, ok := arg.(avIface); ok {
+			argSym, _ = ai.v.(avSym)
+		}
 		for _, o := range outs {
 			if o.Panic {
 				bad, badPos = "a path panics", toInt.Pos()
@@ -785,6 +799,31 @@ func ruleECoercionTable(p *Program, r *Reporter) {
 				continue
 			}
 			paths++
+			if c, ok := o.Res[2].(avConst); ok && c.v.Kind() == constant.Bool && constant.BoolVal(c.v) && argSym.id != 0 {
+				lo, hi := int64(math.MinInt64), int64(math.MaxInt64)
+				if f := o.St.ints[argSym.id]; f != nil {
+					lo, hi = f.lo, f.hi
+					if len(f.neq) > 0 {
+						accExact = false
+					}
+				}
+				if accepted == 0 {
+					accLo, accHi = lo, hi
+				} else {
+					// a second accepting path must continue the interval of the first
+					switch {
+					case hi != math.MaxInt64 && hi+1 == accLo, lo <= accLo && hi >= accLo:
+						accLo = min(accLo, lo)
+						accHi = max(accHi, hi)
+					case accHi != math.MaxInt64 && lo == accHi+1, lo <= accHi && hi >= accHi:
+						accHi = max(accHi, hi)
+						accLo = min(accLo, lo)
+					default:
+						accExact = false
+					}
+				}
+				accepted++
+			}
 			isNum, okN := o.Res[1].(avConst)
 			isInt, okI := o.Res[2].(avConst)
 			numV := okN && isNum.v.Kind() == constant.Bool && constant.BoolVal(isNum.v)
@@ -798,6 +837,36 @@ func ruleECoercionTable(p *Program, r *Reporter) {
 				bad, badPos = "a value that is not a number is reported as (isNumber, isInteger) = ("+renderVal(o.Res[1])+", "+renderVal(o.Res[2])+")", o.Ret.Pos()
 			case !numV && intV && bad == "":
 				bad, badPos = "a path reports an integer that is not a number", o.Ret.Pos()
+			}
+		}
+		// the accepted values of a machine-integer kind are exactly those of the kind that fit an int
+		if b, isBasic := k.t.(*types.Basic); k.t != nil && isBasic && b.Info()&types.IsInteger != 0 && bad == "" {
+			sizes := p.Eval.TypesSizes
+			kb, ksigned, _ := intRange(b, sizes)
+			ib, _, _ := intRange(types.Typ[types.Int], sizes)
+			rng := func(bits int, signed bool) (int64, int64) {
+				if !signed {
+					if bits >= 64 {
+						return 0, math.MaxInt64 // the upper part of uint64 is beyond the facts; int never reaches it
+					}
+					return 0, int64(1)<<bits - 1
+				}
+				if bits >= 64 {
+					return math.MinInt64, math.MaxInt64
+				}
+				return -(int64(1) << (bits - 1)), int64(1)<<(bits-1) - 1
+			}
+			kLo, kHi := rng(kb, ksigned)
+			iLo, iHi := rng(ib, true)
+			wantLo, wantHi := max(kLo, iLo), min(kHi, iHi)
+			gotLo, gotHi := max(accLo, kLo), min(accHi, kHi)
+			switch {
+			case accepted == 0:
+				bad, badPos = "no path accepts a value of this integer kind as an integer", toInt.Pos()
+			case !accExact:
+				r.Unknown(toInt.Pos(), key+" range", "the accepted values are not one interval of the operand")
+			case gotLo != wantLo || gotHi != wantHi:
+				bad, badPos = fmt.Sprintf("the values accepted as integers are [%d, %d]; the values of %s that fit an int are [%d, %d]: the same number is accepted or refused depending on the Go type that carries it", gotLo, gotHi, k.name, wantLo, wantHi), toInt.Pos()
 			}
 		}
 		switch {
